@@ -14,6 +14,7 @@
  * limitations under the License.
  */
 
+#include <unifex/detail/verif_hooks.hpp>
 #include <unifex/v1/async_mutex.hpp>
 
 namespace unifex {
@@ -26,11 +27,13 @@ async_mutex::~async_mutex() {
 }
 
 bool async_mutex::try_enqueue(waiter_base* base) noexcept {
+  UNIFEX_VERIF_POINT(282);
   return atomicQueue_.enqueue_or_mark_active(base);
 }
 
 void async_mutex::unlock() noexcept {
   if (pendingQueue_.empty()) {
+    UNIFEX_VERIF_POINT(281);
     auto newWaiters = atomicQueue_.try_mark_inactive_or_dequeue_all();
     if (newWaiters.empty()) {
       return;
